@@ -116,6 +116,11 @@ func (q *Query) Text(withModel bool) string {
 	if used["str.ofbytes"] && used["bytes.ofstr"] {
 		axioms = append(axioms, "(assert (forall ((s Int)) (= (str.ofbytes (bytes.ofstr s)) s)))")
 	}
+	if used["str.split.arr"] {
+		// a piece of a split contains no separator: splitting it again by the same separator gives the piece itself
+		axioms = append(axioms,
+			"(assert (forall ((s Int) (sep Int) (i Int)) (! (=> (and (<= 0 i) (< i (str.split.len s sep))) (and (= (str.split.len (select (str.split.arr s sep) i) sep) 1) (= (select (str.split.arr (select (str.split.arr s sep) i) sep) 0) (select (str.split.arr s sep) i)))) :pattern ((str.split.arr (select (str.split.arr s sep) i) sep)))))")
+	}
 	if used["time.nonzero"] {
 		ufMu.Lock()
 		sig, ok := ufSigs["time.nonzero"]
